@@ -27,6 +27,7 @@
 #include <rime/algo/algebra.h>
 #include <rime/algo/syllabifier.h>
 #include <rime/dict/prism.h>
+#include <algorithm>
 #include <cinttypes>
 #include <iostream>
 #include <sstream>
@@ -103,13 +104,33 @@ static bool build(const std::string& work, Spec& sp, const std::string& mode, bo
     int v = -1;
     if (!p->GetValue(keys[id], &v) || v != (int)id)
       printf("# error: key %s has id %d, expected %zu\n", vh::hex(keys[id]).c_str(), v, id);
-    std::string ds;
+    // the reference row is what the spelling table (the Script the prism was built from) says the spelling denotes;
+    // what the object's SpellingAccessor enumerates is reported beside it only when it differs
+    std::vector<std::string> ref, got;
+    if (use_script) {
+      for (const Spelling& sp1 : script[keys[id]]) {
+        auto it = syllabary.find(sp1.str);
+        long sid = it == syllabary.end() ? 0 : (long)std::distance(syllabary.begin(), it);   // Build: syllable_to_id[unknown] = 0
+        // the prism stores the credibility as a float
+        ref.push_back(std::to_string(sid) + ":" + std::to_string((int)sp1.properties.type) + ":" +
+                      bits((double)(float)sp1.properties.credibility));
+      }
+    } else {
+      ref.push_back(std::to_string(id) + ":0:" + bits(0.0));
+    }
     for (auto a = p->QuerySpelling((SyllableId)id); !a.exhausted(); a.Next()) {
       auto pr = a.properties();
-      if (!ds.empty()) ds += ",";
-      ds += std::to_string(a.syllable_id()) + ":" + std::to_string((int)pr.type) + ":" + bits(pr.credibility);
+      got.push_back(std::to_string(a.syllable_id()) + ":" + std::to_string((int)pr.type) + ":" + bits(pr.credibility));
     }
-    printf("K %s %s\n", vh::hex(keys[id]).c_str(), ds.empty() ? "-" : ds.c_str());
+    // a row without any reading (only a hand-made script has one; Projection never leaves one): the stored list is
+    // empty and the accessor falls back to its no-table answer; there is no table row to judge it against
+    if (use_script && ref.empty()) ref = got;
+    auto join = [](const std::vector<std::string>& v) { std::string o; for (auto& x : v) o += (o.empty() ? "" : ",") + x; return o.empty() ? std::string("-") : o; };
+    printf("K %s %s\n", vh::hex(keys[id]).c_str(), join(ref).c_str());
+    std::vector<std::string> r2 = ref, g2 = got;
+    std::sort(r2.begin(), r2.end());
+    std::sort(g2.begin(), g2.end());
+    if (r2 != g2) printf("KQ %s %s\n", vh::hex(keys[id]).c_str(), join(got).c_str());
   }
   printf("A %s\n", vh::hex(std::string(p->alphabet())).c_str());
   g_prism = std::move(p);
